@@ -178,18 +178,18 @@ class Proof:
         if r == "unsat":
           self.ctx._rec(kh.QResult(name, "unsat", dt))
           return "unsat", None
-    # concrete candidates first: with every input pinned the query is decided at once
+    # concrete candidates first: with every input pinned, value propagation + equation solving decides the query at once
     cands = []
-    self.full.s.set("timeout", 3000)
-    try:
-      for i, pin in enumerate(self.pins):
-        r2, _, _ = self.full._check([guard, pin, core.Not(goal)])
-        if r2 == "sat":
-          cands.append(z3.And(core.zbool(guard), pin))
-          if len(cands) >= 3:
-            break
-    finally:
-      self.full.s.set("timeout", self.timeout_ms)
+    for i, pin in enumerate(self.pins):
+      ps = z3.Then("simplify", "propagate-values", "solve-eqs", "simplify", "smt").solver()
+      ps.set("timeout", 3000)
+      for f in self.full.s.assertions():
+        ps.add(f)
+      ps.add(core.zbool(guard), pin, core.zbool(core.Not(goal)))
+      if str(ps.check()) == "sat":
+        cands.append((z3.And(core.zbool(guard), pin), ps.model()))
+        if len(cands) >= 3:
+          break
     if cands:
       self.ctx.log(f"goal {name}: counterexample at {len(cands)} pinned input(s)")
       return "sat", cands
@@ -206,25 +206,30 @@ class Proof:
       self.ctx._rec(kh.QResult(name, "unsat", dt))
       return "unsat", None
     if r == "sat":
-      cands.append(guard)
+      cands.append((guard, m))
     return ("sat", cands) if cands else ("unknown", None)
 
   def _report_sat(self, name, goal, cands, names, desc):
-    """hand the counterexample to ctx.prove; the replay tries the models of all candidate guards (pinned inputs give
-    well-conditioned float32 replays) until one reproduces"""
+    """hand the counterexample to ctx.prove (known-finding matching, replay, bookkeeping) with the model already found;
+    the replay tries the models of all candidates (pinned inputs give well-conditioned float32 replays) until one
+    reproduces"""
+    full = self.full
+
+    class Canned:
+      def prove(self_, qname, qgoal, qguard=True):
+        if qname == name:
+          return kh.QResult(qname, "sat", 0.0, cands[0][1])
+        return full.prove(qname, qgoal, qguard)
 
     def multi(model):
       last = (False, "no model")
-      for g in cands:
-        r, _, m = self.full._check([g, core.Not(goal)])
-        if r != "sat":
-          continue
+      for g, m in cands:
         last = self.replay(m)
         if last[0]:
           return last
       return last
 
-    self.ctx.prove(self.full, name, goal, cands[0], names=names, replay=multi, desc=desc)
+    self.ctx.prove(Canned(), name, goal, cands[0][0], names=names, replay=multi, desc=desc)
 
   def _inconclusive(self, name, t0):
     self.ctx._rec(kh.QResult(name, "unknown", time.time() - t0))
